@@ -4,7 +4,12 @@ use serde_json::{json, Value};
 use std::collections::{BTreeMap, HashSet};
 use std::time::Instant;
 
-pub const VERIF_ROOT: &str = "/verif";
+/// Root directory for evidence, replays and the known-findings file: /verif, unless the mutation
+/// sandbox (seeded/automutate.py) redirects it with VERIF_ROOT_DIR so that campaign runs never touch the
+/// registered evidence.
+pub fn verif_root() -> String {
+    std::env::var("VERIF_ROOT_DIR").unwrap_or_else(|_| "/verif".to_string())
+}
 const DISTINCT_CAP: usize = 6_000_000;
 
 #[derive(Clone, Debug)]
@@ -192,7 +197,7 @@ fn supervise(property: &'static str) {
     }
     // killed by a signal (SIGABRT / SIGSEGV / SIGILL ...)
     let tail: Vec<&str> = stderr.lines().rev().take(6).collect::<Vec<_>>().into_iter().rev().collect();
-    let trace_path = format!("{VERIF_ROOT}/target/trace-{property}.txt");
+    let trace_path = format!("{}/target/trace-{property}.txt", verif_root());
     let _ = std::fs::remove_file(&trace_path);
     let replaying = args.iter().any(|a| a == "--replay");
     let traced = if replaying { None } else { run_child(Some(&trace_path)) };
@@ -200,7 +205,7 @@ fn supervise(property: &'static str) {
     let last = last.trim_end_matches(['\0', ' ', '\n']).to_string();
     let case: Value = serde_json::from_str(&last).unwrap_or_else(|_| json!({"trace": last}));
     let reproduced = traced.map_or(false, |t| t.status.code().is_none());
-    let dir = format!("{VERIF_ROOT}/replays/{property}");
+    let dir = format!("{}/replays/{property}", verif_root());
     let _ = std::fs::create_dir_all(&dir);
     let path = if replaying { args.iter().skip_while(|a| *a != "--replay").nth(1).cloned().unwrap_or_default() } else { format!("{dir}/abort-{}.json", short_hash(&last)) };
     if !replaying {
@@ -303,7 +308,7 @@ pub struct Known {
 }
 
 pub fn load_known(property: &str) -> Result<Vec<Known>, String> {
-    let path = format!("{VERIF_ROOT}/known-findings.json");
+    let path = format!("{}/known-findings.json", verif_root());
     let txt = match std::fs::read_to_string(&path) {
         Ok(t) => t,
         Err(_) => return Ok(vec![]),
@@ -340,7 +345,7 @@ pub fn finish(run: &Run, meta: Meta, mut ctx: Ctx) -> i32 {
     let mut n_unlisted = 0u64;
     let mut known_seen: Vec<Value> = vec![];
     let mut viol_json: Vec<Value> = vec![];
-    let dir = format!("{VERIF_ROOT}/replays/{prop}");
+    let dir = format!("{}/replays/{prop}", verif_root());
     let buckets = std::mem::take(&mut ctx.buckets);
     // one KNOWN-FINDING line per finding id
     let mut known_lines: BTreeMap<String, (u64, String)> = BTreeMap::new();
@@ -456,8 +461,8 @@ pub fn finish(run: &Run, meta: Meta, mut ctx: Ctx) -> i32 {
             "violation_details": viol_json,
             "machinery_errors": ctx.errors,
         });
-        let _ = std::fs::create_dir_all(format!("{VERIF_ROOT}/evidence"));
-        let path = format!("{VERIF_ROOT}/evidence/{prop}.json");
+        let _ = std::fs::create_dir_all(format!("{}/evidence", verif_root()));
+        let path = format!("{}/evidence/{prop}.json", verif_root());
         if let Err(e) = std::fs::write(&path, serde_json::to_string_pretty(&ev).unwrap()) {
             eprintln!("MACHINERY-ERROR: cannot write {path}: {e}");
             return 2;
